@@ -16,6 +16,7 @@ DATA_DIR = ROOT + "/d0"
 def sig_of_exception(e):
     msg = str(e).split("\n")[0]
     msg = re.sub(r"^\{.*\}\s*", "<metadata> ", msg)      # Saver errors start with the whole metadata dict
+    msg = re.sub(r"/__simfs__/[^\s'\"]*", "<path>", msg)
     msg = re.sub(r"0x[0-9a-f]+", "#", msg)
     msg = re.sub(r"\d+", "#", msg)
     msg = re.sub(r"H_\w+|n#\w*|s[a-c]\b", "<t>", msg)
